@@ -409,6 +409,17 @@ pub fn run(opts: &Opts) -> i32 {
         }
         r.after()
     });
+    // ---- T: well-formed packets that arrive slowly / in pieces under a configured frame read rate
+    // (real time; scenarios shared with C20): no panic, the connection stays in service
+    if opts.replay.is_none() && std::env::var("VERIF_SANITIZER").is_err() {
+        let ts = timed_scenarios(opts.seed, opts.tier == crate::report::Tier::Quick);
+        rep.extra("timed_scenarios", json!(ts.iter().map(|s| s.name.clone()).collect::<Vec<_>>()));
+        let (_, late) = super::c20::run_scns(&rep, opts, &ts, Some("T"));
+        if late.len() * 4 > ts.len() {
+            rep.inconclusive(format!("T: {} of {} timed scenarios undecided because the harness was late (machine overloaded?)", late.len(), ts.len()));
+        }
+        rep.require("T_expect_Alive", 2);
+    }
     rep.extra("sequences_executed", json!(done));
     rep.set_exhaustive(done == jobs.len() as u64);
     rep.assume("a PUBLISH frame left open by the sequence is completed with filler bytes before the probe is sent");
@@ -445,9 +456,22 @@ fn first_cause(names: &[&str]) -> String {
     names.iter().take(2).copied().collect::<Vec<_>>().join(",")
 }
 
+/// part T: scenarios of C20's grid in which a live peer delivers well-formed packets slowly or in
+/// pieces and the connection has to stay in service
+fn timed_scenarios(seed: u64, quick: bool) -> Vec<super::c20::Scn> {
+    let mut rng = crate::pool::Rng::for_case(seed, "c20", 0);
+    super::c20::scenarios(quick, &mut rng)
+        .into_iter()
+        .filter(|s| s.expect == super::c20::Expect::Alive && (s.name.contains("read rate") || s.name.contains("straddle")))
+        .collect()
+}
+
 fn replay(path: &std::path::Path) -> i32 {
     let v: serde_json::Value = serde_json::from_str(&std::fs::read_to_string(path).expect("replay file")).expect("json");
     let c = &v["replay"]["case"];
+    if c["part"].as_str() == Some("T") {
+        return super::c20::replay_named("C16", path, v["seed"].as_u64().unwrap_or(1), c["name"].as_str().unwrap_or(""));
+    }
     let role = match c["role"].as_str().unwrap_or("") {
         "v3/server" => Role::V3Server,
         "v5/server" => Role::V5Server,
